@@ -868,8 +868,24 @@ func c16DanglingPrefix(c *ctx, rule string, fn *ssa.Function, sl *ssa.Slice) {
 		_ = x
 		return true
 	}
-	// the alternation flag
+	// the state flag: a boolean carried round the loop on which the body branches between "read a length
+	// prefix" (the Int64() of an element of the input) and "take the part"; `pending` is the value it has
+	// after a length has been read
 	var flag *ssa.Phi
+	pending := false
+	var lenRead *ssa.BasicBlock
+	for _, b := range fn.Blocks {
+		if !inLoop(b) {
+			continue
+		}
+		for _, in := range b.Instrs {
+			if call, ok := in.(*ssa.Call); ok && core.CallIs(call, "(*math/big.Int).Int64") {
+				if t := core.TermOf(call.Call.Args[0]); t.Op == "[]" && t.Args[0].Key() == paramTerm(fn, 0).Key() {
+					lenRead = b
+				}
+			}
+		}
+	}
 	for _, in := range h.Instrs {
 		phi, ok := in.(*ssa.Phi)
 		if !ok {
@@ -878,12 +894,30 @@ func c16DanglingPrefix(c *ctx, rule string, fn *ssa.Function, sl *ssa.Slice) {
 		if b, isB := phi.Type().Underlying().(*types.Basic); !isB || b.Kind() != types.Bool {
 			continue
 		}
-		for i, e := range phi.Edges {
-			if !inLoop(h.Preds[i]) {
+		if lenRead == nil {
+			continue
+		}
+		for _, b := range fn.Blocks {
+			if !inLoop(b) {
 				continue
 			}
-			if u, isU := core.Strip(e).(*ssa.UnOp); isU && u.Op == token.NOT && core.Strip(u.X) == ssa.Value(phi) {
-				flag = phi
+			iff, isIf := b.Instrs[len(b.Instrs)-1].(*ssa.If)
+			if !isIf {
+				continue
+			}
+			fs := core.CondFacts(iff.Cond, true, iff)
+			if len(fs) != 1 || fs[0].Kind != core.FBool || core.Strip(fs[0].X) != ssa.Value(phi) {
+				continue
+			}
+			for si := 0; si < 2; si++ {
+				if core.EdgeDominates(b, si, lenRead) {
+					// on this edge the flag equals fs[0].Bool (true edge) or its negation: the reading state
+					readVal := fs[0].Bool
+					if si == 1 {
+						readVal = !readVal
+					}
+					flag, pending = phi, !readVal
+				}
 			}
 		}
 	}
@@ -912,7 +946,7 @@ func c16DanglingPrefix(c *ctx, rule string, fn *ssa.Function, sl *ssa.Slice) {
 		c.r.Check(ok, rule, key, c.pos(sl), "every iteration reads a length and appends its part", "the parsing loop has no state flag and does not append a part on every completed iteration")
 		return
 	}
-	// leave the loop with flag == false (a length was read, its part not yet taken): no success return without an append
+	// leave the loop in the pending state (a length was read, its part not yet taken): no success return without an append
 	var exits []*ssa.BasicBlock
 	for _, b := range fn.Blocks {
 		if !inLoop(b) {
@@ -947,11 +981,11 @@ func c16DanglingPrefix(c *ctx, rule string, fn *ssa.Function, sl *ssa.Slice) {
 		case *ssa.If:
 			fs := core.CondFacts(t.Cond, true, t)
 			if len(fs) == 1 && fs[0].Kind == core.FBool && core.Strip(fs[0].X) == ssa.Value(flag) {
-				// the true edge means flag == fs[0].Bool; the state examined is flag == false
-				if fs[0].Bool {
-					walk(b.Succs[1])
-				} else {
+				// the true edge means flag == fs[0].Bool; the state examined is flag == pending
+				if fs[0].Bool == pending {
 					walk(b.Succs[0])
+				} else {
+					walk(b.Succs[1])
 				}
 				return
 			}
